@@ -59,6 +59,14 @@ def gen_utf8(r, n):
     return out
 
 
+def ipv6_special_forms():
+    """unspecified, all ones, loopback, IPv4-mapped, IPv4-compatible, NAT64, 6to4, link-local, multicast, documentation"""
+    return [b"\0" * 16, b"\xff" * 16, b"\0" * 15 + b"\1", b"\0" * 10 + b"\xff\xff" + bytes([192, 0, 2, 33]), b"\0" * 10 + b"\xff\xff" + b"\0\0\0\0",
+            b"\0" * 10 + b"\xff\xff" + b"\xff\xff\xff\xff", b"\0" * 12 + bytes([10, 1, 2, 3]), bytes.fromhex("0064ff9b") + b"\0" * 8 + bytes([198, 51, 100, 7]),
+            bytes.fromhex("2002c0000221") + b"\0" * 10, bytes.fromhex("fe80") + b"\0" * 13 + b"\7", bytes.fromhex("ff02") + b"\0" * 13 + b"\1",
+            bytes.fromhex("20010db8") + b"\0" * 11 + b"\1"]
+
+
 def gen_leaf(r, kind=None, big=False):
     k = kind or r.choice(LEAF_KINDS)
     if k in ("a4", "ip4"):
